@@ -88,6 +88,38 @@ func (g *GT[T]) Len() int {
 	return fn.As[int](res[0])
 }
 
+// gvIndex maps (instantiation, value-receiver method) to the zoo index of that method.
+func gvIndex(g interface{}, name string) int {
+	_, isInt := g.(GT[int])
+	switch {
+	case name == "VZero":
+		return 26
+	case isInt:
+		return 25
+	}
+	return 24
+}
+
+// VLen is a parameterless VALUE-receiver generic method (symbol pkg.GT[...].VLen, no parentheses).
+//
+//go:noinline
+func (g GT[T]) VLen() int {
+	k := gvIndex(g, "VLen")
+	fn.Ran(Base + k)
+	res := fn.Compute(Base+k, typs[k], []interface{}{g})
+	return fn.As[int](res[0])
+}
+
+// VZero is a parameterless value-receiver generic method returning the type parameter.
+//
+//go:noinline
+func (g GT[T]) VZero() T {
+	k := gvIndex(g, "VZero")
+	fn.Ran(Base + k)
+	res := fn.Compute(Base+k, typs[k], []interface{}{g})
+	return fn.As[T](res[0])
+}
+
 // Base is the global index of the first method.
 const Base = 100
 
